@@ -5,6 +5,7 @@ from .common import *
 from vsym.core import choose
 
 PROPERTY = 'C18'
+DEBUG_LOG = ['generated/compressed/cp500/1014', 'packaged/IP0075T1/expanded']      # obligations that are also explored with debug logging switched on
 PYTHON_O = ['generated/compressed/latin_1/vbs', 'packaged/IP0075T1/expanded', 'refusals']      # obligations that are also explored with the modules compiled as under python -O
 ASSUMPTIONS = [
     'extract file = literal index rows + literal trailer + up to 3 data rows; each data row = literal key fields (timestamp, code, table id / sub id) '
@@ -59,7 +60,8 @@ def extract(table, cfg_mode, expanded, enc, blocked, nrows, maxlen, via_csv=Fals
         m = M().mciipm
         if cfg_mode == 'packaged':
             pcfg = None
-            layout = M().config.config['mci_parameter_tables'][table]
+            from . import packaged
+            layout = packaged.param_tables()[table]
         else:
             S = sym_int('col_start', 19, 60)
             E = sym_int('col_end', 19, 90)
